@@ -259,7 +259,7 @@ def run_case(binary, scratch, case, idx, mode="cset", extra_args=()):
     path = scratch.script(f"s{idx}.txt", lines, universe, case.get("len"))
     sr = C.run_sim(binary, [mode, path] + list(extra_args), nodes=case["nodes"], ppn=case["ppn"],
                    env={"YGM_COMM_BUFFER_SIZE_KB": case["buffer_kb"], "YGM_COMM_ROUTING": case["routing"]},
-                   sim_seed=case["sim_seed"], policy=case["policy"], timeout=240)
+                   sim_seed=case["sim_seed"], policy=case["policy"], timeout=30, max_steps=400000, livelock=200000)
     return sr, universe, contrib
 
 
@@ -397,6 +397,29 @@ def check_cset(res, case, sr, universe, contrib, model_ok):
                     "real_counts": real_count, "rank0_first_labels": " ".join(per_rank[0][0][:40])})
 
 
+def search_around(res, binary, checker, runner, model_ok, budget=8, force=None):
+    """README rule: a disagreement between model and code that did not break the property on the run where it was
+    seen gets a search budget — the same script under other schedules / policies / capacity 0 (and whatever `force`
+    sets, e.g. the sum operator) — to turn it into a failing input."""
+    todo = [f for f in res.corr_failures if isinstance(f.get("case"), dict) and "script_seed" in f["case"]][:3]
+    if not todo or res.oracle_failures:
+        return
+    variants = []
+    for f in todo:
+        for i in range(budget):
+            v = dict(f["case"], sim_seed=f["case"]["sim_seed"] + 1000 + i, policy=POLICIES[i % len(POLICIES)], buffer_kb=0)
+            v.update(force or {})
+            variants.append(v)
+    with Scratch() as sc:
+        out = C.pmap(lambda iv: (iv[1],) + runner(binary, sc, iv[1], 900 + iv[0]), list(enumerate(variants)))
+    probe = C.Result()
+    for case, sr, universe, contrib in out:
+        checker(probe, case, sr, universe, contrib, model_ok)
+    res.notes.append(f"search around {len(todo)} disagreeing case(s): {len(variants)} variants run, {len(probe.oracle_failures)} failed the oracle")
+    res.evaluations += probe.evaluations
+    res.oracle_failures += probe.oracle_failures[:3]
+
+
 def run(tier, seed, model_ok=True):
     res = C.Result()
     res.rule = RULE
@@ -416,6 +439,7 @@ def run(tier, seed, model_ok=True):
         results = C.pmap(do, list(enumerate(cases)))
     for case, sr, universe, contrib in results:
         check_cset(res, case, sr, universe, contrib, model_ok)
+    search_around(res, binary, check_cset, lambda b, sc, case, i: run_case(b, sc, case, i), model_ok)
     return res
 
 
